@@ -23,13 +23,13 @@ int omp_get_max_threads(void) { int n; __CPROVER_assume(n >= 1); return n; }
  * for astronomically large shapes is therefore not examined */
 uint64_t __CPROVER_uninterpreted_rowlen(uint64_t, uint64_t);
 uint64_t __CPROVER_uninterpreted_rowoff(uint64_t, uint64_t, uint64_t);
-#define ROWLEN(c, d) __CPROVER_uninterpreted_rowlen(c, d)
 uint64_t __CPROVER_uninterpreted_umul(uint64_t, uint64_t);
-#define UMUL(a, b) __CPROVER_uninterpreted_umul(a, b)                 /* rule M2-mul: nn * dim, (nbatches - 1) * batch_size, j * batch_size * dim = UMUL(UMUL(j, batch_size), dim) */
+#define UMUL(a, b) __CPROVER_uninterpreted_umul(a, b)   /* rule M2-mul: every product of size variables, left-associated */
+#define ROWLEN(c, d) UMUL(c, d)
 uint64_t __CPROVER_uninterpreted_udiv(uint64_t, uint64_t);
 static uint64_t vf_udiv(uint64_t x, uint64_t y)                       /* rule M2-div + AXIOM(c-division), as in props/C17/contracts_par.c */
 { __CPROVER_assert(y != 0, "division by zero"); uint64_t q = __CPROVER_uninterpreted_udiv(x, y); __CPROVER_assume(q <= x); __CPROVER_assume(x < y ? q == 0 : q >= 1); __CPROVER_assume(y != 1 || q == x); return q; }
-#define ROWOFF(i, c, d) __CPROVER_uninterpreted_rowoff(i, c, d)
+#define ROWOFF(i, c, d) UMUL(UMUL(i, c), d)
 uint64_t __CPROVER_uninterpreted_tree(uint64_t);
 #define TREE(o) __CPROVER_uninterpreted_tree(o)
 
